@@ -28,3 +28,27 @@ chk('C03', 'other',
     '15-entry form with reference-rotated vectors',
     'symbolic execution of the real Python code + rational-function identity + z3 nonlinear real arithmetic',
     'DESIGN.md 4/C03')
+
+TV_NOTE = ('reals for floats; TatSu shim of vt/shim (installed TatSu cannot parse the left-recursive grammar, DESIGN 1.1); reference '
+           'point-location semantics of vt/deck.py + vt/sem; generated decks are a bounded family (sizes in the evidence); '
+           'counterexamples are concretised by the solver model and replayed on the unpatched converter before being reported')
+TV_TECH = 'symbolic execution of the real pipeline (SymReal + z3 path forking) + z3 region equivalence on the written text (translation validation)'
+
+chk('C01', 'translation_validation',
+    'Generated MCNP partition decks with symbolic surface offsets/radii go through the real pipeline (parsing, complement elimination, '
+    'tree conversion, de-duplication, pruning, writers) under symbolic execution: surface coincidences are forks decided by z3. For every '
+    'feasible path the written text is parsed back and z3 proves, per MCNP cell and with the point symbolic, that the non-virtual volumes '
+    'carrying its number cover exactly its region iff its importance is non-zero (hence disjointness and coverage), for all parameter values.',
+    TV_NOTE, TV_TECH, 'DESIGN.md 4/C01')
+chk('C12', 'translation_validation',
+    'Slab decks whose importances come from cell cards (one or two particle types), IMP data cards with nR/nM/nI shorthand, or both; every '
+    'importance (and shorthand multiplier / interpolation end) is a symbolic real >= 0, so which cells have importance zero is decided by '
+    'solver forks. Per path z3 proves that the skipped list equals the reference zero-importance set and that the written volumes are '
+    'exactly the regions of the other cells.', TV_NOTE, TV_TECH, 'DESIGN.md 4/C12')
+chk('C16', 'translation_validation',
+    'Partition decks with */+ flags and symbolic surface parameters (a flagged surface equal to an earlier one is a solver fork) through the '
+    'real pipeline with and without de-duplication, with unused flagged surfaces and flagged macrobodies; the written BOUNDARY_CONDITION block '
+    'is read back: each entry must designate a defined SURF with the zero set of a flagged card of that kind (parallel coefficient vectors, '
+    'decided under the path condition), each flagged card bounding a converted cell must have exactly one entry.',
+    TV_NOTE + '; known finding F2 (entries carry the MCNP number verbatim) is listed in known_findings.json',
+    TV_TECH, 'DESIGN.md 4/C16')
